@@ -4,7 +4,8 @@
    implementation (Model/Oracle2.v).  ./vp ties implementation = Step = SubjK on every history run. *)
 From Coq Require Import List ZArith Bool Arith.
 From RX Require Import Val Syntax Step Oracle Oracle2 SubjK.
-From RXP Require Import SubjKRef SubjKReplay SubjKBehavior SubjKAsync.
+From RX Require Import World.
+From RXP Require Import SubjKRef SubjKReplay SubjKBehavior SubjKAsync OpenUntil SubjQuiet.
 Import ListNotations.
 
 (* Plain Subject, EVERY call history (any number of observers, each subscribing once; any values; any
@@ -94,6 +95,46 @@ Check C10_behavior_latest :
   let s := sk_run KBehavior (Some init) script in
   sk_last s = Some (last (pushed script) init) /\ sk_err s = None.
 Print Assumptions C10_behavior_latest.
+
+(* On the worklist machine itself (every request kind, every pipeline, every run, re-entrant callbacks included): the observer
+   list of a subject grows only by subscribing ... *)
+Theorem C10_members_only_by_subscribing :
+  forall fuel stk w h p,
+  In p (sj_obs (subjs (snd (run fuel stk w)) h)) ->
+  In p (sj_obs (subjs w h)) \/ exists o, In (SubjJoin h o) (run_reqs fuel stk w).
+Proof. exact members_only_by_join. Qed.
+Check C10_members_only_by_subscribing :
+  forall fuel stk w h p,
+  In p (sj_obs (subjs (snd (run fuel stk w)) h)) ->
+  In p (sj_obs (subjs w h)) \/ exists o, In (SubjJoin h o) (run_reqs fuel stk w).
+Print Assumptions C10_members_only_by_subscribing.
+
+(* ... and a terminal broadcast takes its snapshot and empties the list in one step, BEFORE the first notification runs: whatever
+   runs afterwards - the pending notifications, the callbacks they trigger, pushes nested in them - a later broadcast on that
+   subject reaches nobody until somebody has subscribed again. *)
+Theorem C10_nothing_after_terminal_until_resubscription :
+  forall h e w fuel stk e', is_term e = true ->
+  let w1 := snd (step (Broadcast h e) w) in
+  (forall o, ~ In (SubjJoin h o) (run_reqs fuel stk w1)) ->
+  fst (step (Broadcast h e') (snd (run fuel stk w1))) = [].
+Proof. exact nothing_after_terminal_until_resubscription. Qed.
+Check C10_nothing_after_terminal_until_resubscription :
+  forall h e w fuel stk e', is_term e = true ->
+  let w1 := snd (step (Broadcast h e) w) in
+  (forall o, ~ In (SubjJoin h o) (run_reqs fuel stk w1)) ->
+  fst (step (Broadcast h e') (snd (run fuel stk w1))) = [].
+Print Assumptions C10_nothing_after_terminal_until_resubscription.
+
+(* an instance: both subscribers of a plain subject answer their completion by pushing 7 into the subject; each of them ends
+   with exactly [1; complete] - the 7s, pushed while the notification goes round, reach nobody *)
+Definition c10_feedback : scenario :=
+  {| sc_scripts := []; sc_subjects := [(KSubject, None)]; sc_conns := []; sc_defs := []; sc_handles := 2;
+     sc_script := [DSub 0 (PHot 0) [(1, REmit 0 (Nx (VInt 7)))]; DSub 1 (PHot 0) [(1, REmit 0 (Nx (VInt 7)))];
+                   DEmit 0 (Nx (VInt 1)); DEmit 0 Co] |}.
+Example C10_example_feedback_in_terminal :
+  let w := snd (run_scenario 1000 c10_feedback) in
+  ulog (uenc (UTop 0)) (log w) = [Nx (VInt 1); Co] /\ ulog (uenc (UTop 1)) (log w) = [Nx (VInt 1); Co].
+Proof. vm_compute. split; reflexivity. Qed.
 
 (* Non-vacuity / hand-over examples on the automaton (three observers, late joiners, every kind). *)
 Definition c10_hist : list action :=
